@@ -979,6 +979,7 @@ type Atom struct {
 	Args []ssa.Value // for call atoms: argument values
 	Fn   *ssa.Function
 	Env  *env // environment the atom's Src/Args are read in (set by the path walker)
+	Neg  bool // cmp: the atom is the negation of the comparison in the source (for floats not(x>0) is weaker than x<=0: NaN)
 }
 
 func (a Atom) String() string {
@@ -1087,7 +1088,7 @@ func (c *Ctx) atoms(cond ssa.Value, pol bool, e *env) []Atom {
 			if rk, ok := r.(*ssa.Const); ok && rk.Value == nil && (op == "==" || op == "!=") {
 				return []Atom{{Kind: "nil", Subj: c.key(l, le), Pos: op == "==", Src: cond}}
 			}
-			return []Atom{{Kind: "cmp", Subj: c.key(l, le), Op: op, Val: c.key(r, re), Src: cond}}
+			return []Atom{{Kind: "cmp", Subj: c.key(l, le), Op: op, Val: c.key(r, re), Src: cond, Neg: !pol}}
 		}
 	case *ssa.Extract:
 		if ta, ok := x.Tuple.(*ssa.TypeAssert); ok && x.Index == 1 {
